@@ -22,7 +22,12 @@ Variants (`Variant`, `true` = repaired / contract, `false` = the code as it is t
   route is never reported among the less-specifics;
 * `mcast`     — `Rib::match_prefix` hides the multicast store unless the unicast answer is empty;
 * `more`      — the store's more-specifics iterator returns wrong prefixes; under `more = false`
-  the model does not recompute the set but takes the dependency's answer (`obs`) as an input.
+  the model does not recompute the set but takes the dependency's answer (`obs`) as an input;
+* `lessstop`  — the store's less-specifics iterator walks from the longest covering prefix to the
+  shortest and **ends** at the first prefix slot that holds no record (`return … else None` inside
+  `LessSpecificPrefixIter::next`); such a slot is left behind by a per-prefix withdrawal of a
+  prefix the store never held (`mark_mui_as_withdrawn_for_prefix` creates it). Found through the
+  history stream of the engine (builder U, `notes/RibBridge.md`).
 
 Strings are `List Char` so that `decide` can evaluate the model in the kernel.
 -/
@@ -80,6 +85,9 @@ the ingress ids marked withdrawn store-wide (`mark_mui_as_withdrawn`). -/
 structure Store where
   recs : List Rec
   wd : List Nat
+  /-- prefixes that have a slot in the store but no record: left behind by a per-prefix
+  withdrawal (`mark_mui_as_withdrawn_for_prefix`) of a prefix the store never held -/
+  empty : List Prefix := []
   deriving Repr
 
 /-- What a query reports for a record: the status is rewritten to withdrawn when the ingress
@@ -102,10 +110,11 @@ structure Variant where
   lesszero : Bool
   mcast : Bool
   more : Bool
+  lessstop : Bool
   deriving DecidableEq, Repr
 
-def asWritten : Variant := ⟨false, false, false, false⟩
-def repaired : Variant := ⟨true, true, true, true⟩
+def asWritten : Variant := ⟨false, false, false, false, false⟩
+def repaired : Variant := ⟨true, true, true, true, true⟩
 
 /-! ## The store's answer (`match_prefix_by_store_direct`, `ExactMatch`, `include_withdrawn`) -/
 
@@ -118,6 +127,11 @@ structure QueryResult where
 
 def strictlyCovers (p q : Prefix) : Bool := p != q && covers p q
 
+/-- The less-specifics walk towards `r` is cut short: a record-less slot that strictly covers the
+queried prefix lies between the queried prefix and `r.pfx` (it is longer than `r.pfx`). -/
+def Store.cutShort (s : Store) (q : Prefix) (r : Rec) : Bool :=
+  s.empty.any fun e => strictlyCovers e q && decide (r.pfx.len < e.len)
+
 /-- `obs`: the prefixes the real store reported as more-specifics (used iff `v.more = false`). -/
 def Store.matchPrefix (v : Variant) (s : Store) (q : Prefix) (incLess incMore : Bool)
     (obs : List Prefix) : QueryResult :=
@@ -126,7 +140,8 @@ def Store.matchPrefix (v : Variant) (s : Store) (q : Prefix) (incLess incMore : 
     pfxMeta := exact
     less :=
       if incLess then
-        some (s.items.filter fun r => strictlyCovers r.pfx q && (v.lesszero || r.pfx.len != 0))
+        some (s.items.filter fun r => strictlyCovers r.pfx q && (v.lesszero || r.pfx.len != 0)
+          && (v.lessstop || !s.cutShort q r))
       else none
     more :=
       if incMore then
